@@ -126,11 +126,21 @@ Proof.
   rewrite !lfind_rm. destruct (in_drop drop m); reflexivity.
 Qed.
 
+Theorem present_bucket_spec ext drop stored m : valid_ext ext ->
+  lfind (present_bucket ext drop stored) m
+  = if in_drop drop m then None
+    else match lfind ext m with Some v => Some v | None => lfind stored m end.
+Proof.
+  intros H. unfold present_bucket. destruct drop as [|d0 dr].
+  - rewrite lfind_extend by exact H. reflexivity.
+  - rewrite lfind_rm, lfind_extend by (apply valid_ext_rm; exact H). rewrite lfind_rm.
+    destruct (in_drop (d0 :: dr) m); reflexivity.
+Qed.
+
 Theorem two_orders_agree ext drop stored m : valid_ext ext ->
   lfind (present ext drop stored) m = lfind (present_bucket ext drop stored) m.
 Proof.
-  intros H. rewrite present_spec by exact H. unfold present_bucket.
-  rewrite lfind_rm, lfind_extend by exact H. reflexivity.
+  intros H. rewrite present_spec, present_bucket_spec by exact H. reflexivity.
 Qed.
 
 Corollary ext_override ext drop stored : valid_ext ext ->
